@@ -49,10 +49,11 @@ def errStr : Err → String
   | .keyError => "keyError"
   | .assertion => "assertion"
 
-def result (r : Except Err Json) : Json :=
+def result (r : Except Err Json) (extra : List (String × Json) := []) : Json :=
   match r with
-  | .ok j => Json.mkObj [("ok", j)]
-  | .error e => Json.mkObj [("err", Json.str (errStr e))]
+  | .ok j => Json.mkObj ([("ok", j)] ++ extra)
+  | .error e => Json.mkObj ([("err", Json.str (errStr e))] ++ extra)
+
 
 /-- renaming function of the harness: explicit table, otherwise a prefix -/
 def renameFun (j : Json) : GName → GName :=
@@ -88,7 +89,7 @@ def parsePairs (j : Json) : Option (List (GName × GName)) :=
 def expandFun (j : Json) : Node → Option Expansion :=
   let table : List (GName × Expansion) := (getArr j "exp").map fun p =>
     match asArr p with
-    | [nm, e] => (nameOf nm, { sub := parseGraph (e.getObjValD "sub"), inputMap := parsePairs (e.getObjValD "imap"),
+    | [nm, e] => (nameOf nm, { sub := asVisited (parseGraph (e.getObjValD "sub")), inputMap := parsePairs (e.getObjValD "imap"),
                                outputMap := parsePairs (e.getObjValD "omap") })
     | _ => ([], { sub := { nodes := [], sinks := [] }, inputMap := none, outputMap := none })
   fun n => table.lookup n.name
@@ -106,16 +107,52 @@ def acceptFun (j : Json) : Node → GName → Node → GName → Bool :=
     | _ => false
 
 def c11Step (_ : Unit) (j : Json) : Unit × Json :=
-  let g := parseGraph (j.getObjValD "g")
-  let out : Json :=
-    match getStr j "t" with
-    | "copy" => result ((copyGraph g).map graphJson)
-    | "rename" => result ((renameGraph (renameFun j) g).map graphJson)
-    | "dedup" => result ((dedupGraph samePayload g).map graphJson)
-    | "expand" => result ((expandGraph (expandFun j) g).map graphJson)
-    | "fuse" => result ((fuseGraph (inlineFuse (acceptFun j)) g).map graphJson)
-    | "split" => result ((splitGraph (keyFun j) cutNameC g).map splitJson)
-    | _ => Json.str "bad-op"
-  ((), out)
+  let g0 := parseGraph (j.getObjValD "g")
+  match visitOrder g0 with
+  | none => ((), Json.mkObj [("err", Json.str "noOrder")])      -- impossible on a well-formed graph (c11_traverse_terminates)
+  | some ord =>
+    let g := reorder g0 ord
+    let x := [("order", nats ord)]
+    let out : Json :=
+      match getStr j "t" with
+      | "copy" => result ((copyGraph g).map graphJson) x
+      | "rename" => result ((renameGraph (renameFun j) g).map graphJson) x
+      | "dedup" =>
+        let pred : Node → Node → Bool :=
+          match getStr j "pred" with
+          | "payload+name" => fun a b => samePayload a b && a.name == b.name
+          | "payload+name-length" => fun a b => samePayload a b && a.name.length == b.name.length
+          | _ => samePayload
+        result ((dedupGraph pred g).map graphJson) x
+      | "expand" =>
+        let ex := expandFun j
+        let subs : List Json := (getArr j "exp").map fun p =>
+          match asArr p with
+          | [nm, e] => Json.arr #[nm, match visitOrder (parseGraph (e.getObjValD "sub")) with | some o => nats o | none => Json.null]
+          | _ => Json.null
+        let r := match getStr j "splicer" with
+          | "tap" => expandGraphW tapSplice ex g
+          | "first" => expandGraphW firstSplice ex g
+          | _ => expandGraph ex g
+        result (r.map graphJson)
+          (x ++ [("domain", Json.bool (expandOK ex g.nodes)), ("suborders", Json.arr subs.toArray)])
+      | "fuse" =>
+        let r := match getStr j "inplace" with
+          | "" => fuseGraph (inlineFuse (acceptFun j)) g
+          | "none" => fuseGraph (inlineFuse (acceptFun j)) g
+          | m =>
+            let names := (getArr j "inplace_for").map nameOf
+            -- "all": every answer mutates `current`; "table": those for the listed PARENT names
+            fuseGraphM (inlineFuseM (acceptFun j) fun parent _ _ _ => m == "all" || names.contains parent.name) g
+        result (r.map graphJson) x
+      | "split" => result ((splitGraph (keyFun j) cutNameC g).map splitJson) x
+      | "join" =>
+        let more : List (GName × Graph) := (getArr j "more").map fun p =>
+          match asArr p with
+          | [ns, a] => (nameOf ns, asVisited (parseGraph a))
+          | _ => ([], { nodes := [], sinks := [] })
+        result ((joinNamespaced (((getStr j "ns").toList, g) :: more)).map graphJson) x
+      | _ => Json.str "bad-op"
+    ((), out)
 
 def main : IO Unit := runLoop () c11Step
